@@ -170,10 +170,10 @@ class ContentComparer:
             return
         try:
             p.readFile(ref_file)
+            ref_entities = p.parse()
         except Exception as e:
             self.observers.notify("error", ref_file, str(e))
             return
-        ref_entities = p.parse()
         try:
             p.readFile(l10n)
             l10n_entities = p.parse()
